@@ -2,8 +2,8 @@
    Trusted: this file only parses tokens, calls the extracted functions and prints results.
    Strings are hex-encoded tokens x<hex>. Input lines (the header lines are printed by `harness disasm`):
 
-   A key id                                  audit id of the architecture record arch.<key>
-   T key id count (num xname)*               table of the parser's record (I386 and X86_64)
+   A key id mask                             audit id and syscall mask of the architecture record arch.<key>
+   T key id mask count (num xname)*          a record with its table (those of I386 and X86_64 are the parsers')
    C id key mode xcontent                    ExtractSyscalls(arch.<key>, file); mode: file | dir | noent
    R1 xline | R2 xline                       the call-site / raw-site regular expression on a line
    PI xs                                     strconv.ParseInt(s, 0, 64)
@@ -60,8 +60,8 @@ let hex_of (s : Stdlib.String.t) : Stdlib.String.t =
 let hexc s = hex_of (ocaml_string_of s)
 let arg s = coq_string_of (unhex s)
 
-let arches : (Stdlib.String.t, int) Hashtbl.t = Hashtbl.create 16
-let tables : (Stdlib.String.t, n * (n * Disasm_model.string) list) Hashtbl.t = Hashtbl.create 4
+let arches : (Stdlib.String.t, int * int) Hashtbl.t = Hashtbl.create 16
+let tables : (Stdlib.String.t, arch_rec) Hashtbl.t = Hashtbl.create 4
 
 let table_of key =
   match Hashtbl.find_opt tables key with
@@ -71,21 +71,21 @@ let table_of key =
 let handle line =
   match Stdlib.String.split_on_char ' ' line with
   | [] | [ "" ] -> ()
-  | "A" :: key :: id :: _ -> Hashtbl.replace arches key (int_of_string id)
-  | "T" :: key :: id :: _count :: rest ->
+  | "A" :: key :: id :: mask :: _ -> Hashtbl.replace arches key (int_of_string id, int_of_string mask)
+  | "T" :: key :: id :: mask :: _count :: rest ->
       let rec ents = function
         | num :: name :: r -> (n_of_int (int_of_string num), arg name) :: ents r
         | [] -> []
         | _ -> failwith "odd table line" in
-      Hashtbl.replace tables key (n_of_int (int_of_string id), ents rest)
+      Hashtbl.replace tables key { ar_id = n_of_int (int_of_string id); ar_mask = n_of_int (int_of_string mask); ar_table = ents rest }
   | [ "C"; id; key; mode; content ] ->
-      let aid = match Hashtbl.find_opt arches key with Some a -> a | None -> failwith ("no A line for " ^ key) in
+      let (aid, amask) = match Hashtbl.find_opt arches key with Some a -> a | None -> failwith ("no A line for " ^ key) in
       let f = match mode with
         | "file" -> Content (arg content, false)
         | "dir" -> Content (EmptyString, true)
         | "noent" -> OpenFails
         | m -> failwith ("bad mode " ^ m) in
-      (match extract_syscalls (table_of "I386") (table_of "X86_64") (n_of_int aid) f with
+      (match extract_syscalls (table_of "I386") (table_of "X86_64") (n_of_int aid) (n_of_int amask) f with
        | Done recs ->
            let buf = Buffer.create 256 in
            Buffer.add_string buf (Printf.sprintf "C %s OK %d" id (List.length recs));
